@@ -9,6 +9,16 @@ computes (A @ B) @ X, A @ (B @ X), identity @ X, A.inv() @ (A @ X), on unit obje
 composite stacks, and each result must have the type and shape of X and equal the spec's
 exact image, primary and derived data, projectively.  Representation clause: words of a
 projective / hyperbolic representation act on points as the exact product matrix.
+
+Further parts (each a TLA+ module of its own, replayed by a helper module under harness/):
+  proj/ActShapes.tla    -> c03_shapes: composite X of shape sx, composite T of shape st, the three broadcasting
+                           modes, all pairs of ranks 0..2; every entry of the result against the exact image
+  proj/NearIdentity.tla -> c03_near: one-parameter families as polynomial matrices, parameter 1e-9..1e-3; the
+                           library must reproduce the exact DISPLACEMENT (relative comparison)
+  proj/RepAction.tla, hyp/HypRepAction.tla, lib/ActWords.tla -> c03_rep: every word of length <= 3 and every
+                           list of <= 3 words (repeats included) of a representation, per storage type
+  proj/ProjAction.tla   -> props/c03_proj: complex (Gaussian) 2x2 / 3x3 transformations incl. unitary and
+                           complex-orthogonal classes in every representative the spec names; stacks
 """
 import json
 import random
